@@ -60,7 +60,19 @@ primary type (C08c); an undefined type no value reaches (C09c); chain ids at eve
 judge for `cli.new_vanity`, which also gives C18 judged witnesses); declared array sizes near 2^64
 (C17c); data starting with a byte-order mark (C19c: `vlib/magic.py`, special byte sequences at the
 start / end / inside of every binary input); JSON `\\uXXXX` escapes in type strings (C20c:
-`vlib/jsonspell.py`, equivalent re-spellings of documents).
+`vlib/jsonspell.py`, equivalent re-spellings of documents).  Rounds 4–6 (first-contact detection
+12, 16 and 16 of 20): state kept between calls and per thread (C10d, C04d, C08d, C03e, C20f: op `seq`
+and the history search that turns "fails only after other inputs" into a replayable sequence);
+inputs that arrive in pieces (C19d: stdin in several writes, named pipes) or whose `stat` size is not
+their length (C10e); the errno of a failing entropy source (C12d); exact byte lengths around a
+sanity bound (C01d); kind selection under mixed pricing fields (C06d); guards that look at one more
+field than they should (C11d, C11e); texts with stacked prefixes and signs (C13d, C20e); the right
+word's lexical relatives (C01f); 31+ combining marks (C02f); the text of a key instead of the key
+(C04f); repeated member names (C17f); line feeds at buffer-size distances in *output* (C19f); the
+first candidate of a search and request sizes (C18d, C18f); boundary values on the command-line
+route when only the library route had them (C14e, C05f, C14f, C15f).  Two things held throughout:
+every miss was a missing *input family or observable*, never a wrong theorem or model, and every
+family added for one property was then applied to the others it fits.
 
 **Behaviour-preserving refactors (false-alarm test).** Sub-agents rewrote the code without
 changing behaviour, twice: round 1 (25 + 13 + 20 + 25 rewrites; re-run after every widening of the
